@@ -110,6 +110,19 @@ contract(
     loops={"for (glyphName, category) in openTypeCategories.items()": Loop(index="i", seq="KS", invariants=_LOAD_INV)},
 )
 
+# the same function with NO postcondition (safety and frame only): for callers whose clauses do not concern the categories — the ten quantified
+# postconditions above are then not hypotheses of their obligations
+contract(
+    "ufo2ft.util:OpenTypeCategories.load",
+    name="frame",
+    props=["C18"],
+    params={"cls": Const(_OTC_CLS), "font": Ref("c17_Font")},
+    returns=OTC,
+    globals={"logging": Val.obj(_LOGGING), "isinstance": M.ISINSTANCE},
+    locals={"unassigned": Set(STR), "bases": Set(STR), "ligatures": Set(STR), "marks": Set(STR), "components": Set(STR), "openTypeCategories": Dict(STR, STR)},
+    loops={"for (glyphName, category) in openTypeCategories.items()": Loop(index="i", seq="KS", invariants={})},
+)
+
 # =====================================================================================================================
 # ast.findTable
 
@@ -250,7 +263,8 @@ def _get_otc(ex, st, self, args, kwargs, node):
     """self.getOpenTypeCategories() is `OpenTypeCategories.load(self.context.font)`: called through load's CONTRACT"""
     ctx = ex.read_field(st, self, "context")
     font = ex.read_field(st, ctx, "font")
-    return ex.call_contract(CONTRACTS["ufo2ft.util:OpenTypeCategories.load"], [Val.obj(_OTC_CLS), font], {}, st, node)
+    key = "ufo2ft.util:OpenTypeCategories.load"
+    return ex.call_contract(CONTRACTS[ex.c.calls.get(key, key)], [Val.obj(_OTC_CLS), font], {}, st, node)
 
 
 CLASSES["c17_Writer"].methods.update(
@@ -304,8 +318,8 @@ _GDEF_GLOBALS = {
 _BASE = "('{t}' in self.features and (self.mode != 'skip' or '{t}' not in feaFile.featureTags))"
 _HAS_DATA = f"any({_CATS.replace('font.', 'font.')}[g] in {LEGAL!r} for g in {_CATS})"
 
-contract(
-    "ufo2ft.featureWriters.gdefFeatureWriter:GdefFeatureWriter.setContext",
+_SC = "ufo2ft.featureWriters.gdefFeatureWriter:GdefFeatureWriter.setContext"
+_SC_COMMON = dict(
     props=["C18"],
     params={"self": Ref("c17_Writer"), "font": Ref("c17_Font"), "feaFile": Ref(FEAFILE)},
     returns=Ref(NS),
@@ -317,46 +331,55 @@ contract(
         "self.insertFeatureMarker is None",  # class attribute of GdefFeatureWriter
         _DICT_SURJ,  # python dict well-formedness (see above)
     ],
+    ghost_vars={"TS": (Ref(c17.TAGSET), "self.context.todo"), "S0": (Set(STR), "self.features")},
+    ghost={"ctx = super().setContext(font, feaFile, compiler=compiler)": ["TS = ctx.todo", "S0 = ctx.todo.todo"]},
+)
+_SC_LOOP = "for fea in ctx.gdefTableBlock.statements"
+_SC_IF = "if isinstance(fea, ast.GlyphClassDefStatement):"
+_SC_INV0 = {"same-set-object": "ctx.todo == TS", "subset": "all(t in S0 for t in TS)"}
+# One contract variant per to-do entry (each with the invariant, the hints and the callee postconditions its own clauses need; the equivalence is
+# stated as separate implications: each is a small obligation).
+# glyph classes are generated iff the base rule allows it, the user's GDEF block defines none (in ANY mode), and some category is set
+contract(
+    _SC,
+    **_SC_COMMON,
     ensures={
         "context": "result == self.context and result.feaFile == feaFile and result.font == font",
-        # (the equivalence is stated as separate implications: each is a small obligation)
-        # glyph classes are generated iff the base rule allows it, the user's GDEF block defines none (in ANY mode), and some category is set
         "classdefs-only-if-base": f"implies('{G}' in result.todo, {_BASE.format(t=G)})",
         "classdefs-only-if-user-has-none": f"implies('{G}' in result.todo, not feaFile.gdefHasClassDef)",
         "classdefs-only-if-data": f"implies('{G}' in result.todo, {_HAS_DATA})",
         "classdefs-if": f"implies({_BASE.format(t=G)} and not feaFile.gdefHasClassDef and {_HAS_DATA}, '{G}' in result.todo)",
-        # ligature carets: same, the data being the caret anchors of the exported glyphs
+        "nothing-else": f"all(t in self.features for t in result.todo)",
+    },
+    canaries={"always-classdefs": f"'{G}' in result.todo"},
+    hints={
+        "ctx.openTypeCategories = self.getOpenTypeCategories()": [
+            # (one set at a time: a member of a non-empty set is a lib key with that legal value, `*-sound` of OpenTypeCategories.load)
+            *[f"implies(len(ctx.openTypeCategories.{f}) > 0, {_HAS_DATA})" for f in ("unassigned", "base", "ligature", "mark", "component")],
+            f"implies(any(ctx.openTypeCategories), {_HAS_DATA})"],
+        "if not any(ctx.openTypeCategories):": [f"implies('{G}' in TS, {_HAS_DATA})"],
+        # after the discards of an iteration (before the `break` test): the invariant with statement i taken into account, for the leaving path as well
+        _SC_IF: [f"iff('{G}' in TS, '{G}' in S0 and not any(B[a].kind == 'GlyphClassDefStatement' for a in range(i)) and B[i].kind != 'GlyphClassDefStatement')"],
+    },
+    loops={_SC_LOOP: Loop(index="i", seq="B", invariants={
+        **_SC_INV0, "classdefs": f"iff('{G}' in TS, '{G}' in S0 and not any(B[a].kind == 'GlyphClassDefStatement' for a in range(i)))"})},
+)
+# ligature carets: same, the data being the caret anchors of the exported glyphs (the categories play no role: their loader enters without postconditions)
+contract(
+    _SC,
+    name="carets",
+    **_SC_COMMON,
+    calls={"ufo2ft.util:OpenTypeCategories.load": "ufo2ft.util:OpenTypeCategories.load#frame"},
+    ensures={
         "carets-only-if-base": f"implies('{L}' in result.todo, {_BASE.format(t=L)})",
         "carets-only-if-user-has-none": f"implies('{L}' in result.todo, not feaFile.gdefHasCarets)",
         "carets-only-if-data": f"implies('{L}' in result.todo, ligature_carets(self))",  # a dict: truthy iff non-empty
         "carets-if": f"implies({_BASE.format(t=L)} and not feaFile.gdefHasCarets and ligature_carets(self), '{L}' in result.todo)",
-        "nothing-else": f"all(t in self.features for t in result.todo)",
     },
-    canaries={"always-classdefs": f"'{G}' in result.todo"},
-    ghost_vars={"TS": (Ref(c17.TAGSET), "self.context.todo"), "S0": (Set(STR), "self.features")},
-    ghost={"ctx = super().setContext(font, feaFile, compiler=compiler)": ["TS = ctx.todo", "S0 = ctx.todo.todo"]},
-    # after the two discards of an iteration (before the `break` test): the two invariants with statement i taken into account, for the leaving path as well
-    hints={"ctx.openTypeCategories = self.getOpenTypeCategories()": [
-        # (one set at a time: a member of a non-empty set is a lib key with that legal value, `*-sound` of OpenTypeCategories.load)
-        *[f"implies(len(ctx.openTypeCategories.{f}) > 0, {_HAS_DATA})" for f in ("unassigned", "base", "ligature", "mark", "component")],
-        f"implies(any(ctx.openTypeCategories), {_HAS_DATA})"],
-           "if not any(ctx.openTypeCategories):": [f"implies('{G}' in TS, {_HAS_DATA})"],
-           "if isinstance(fea, ast.GlyphClassDefStatement):": [
-        f"iff('{G}' in TS, '{G}' in S0 and not any(B[a].kind == 'GlyphClassDefStatement' for a in range(i)) and B[i].kind != 'GlyphClassDefStatement')",
-        f"iff('{L}' in TS, '{L}' in S0 and not any(B[a].kind in {_CARET_KINDS!r} for a in range(i)) and B[i].kind not in {_CARET_KINDS!r})",
-    ]},
-    loops={
-        "for fea in ctx.gdefTableBlock.statements": Loop(
-            index="i",
-            seq="B",
-            invariants={
-                "same-set-object": "ctx.todo == TS",
-                "subset": "all(t in S0 for t in TS)",
-                "classdefs": f"iff('{G}' in TS, '{G}' in S0 and not any(B[a].kind == 'GlyphClassDefStatement' for a in range(i)))",
-                "carets": f"iff('{L}' in TS, '{L}' in S0 and not any(B[a].kind in {_CARET_KINDS!r} for a in range(i)))",
-            },
-        )
-    },
+    canaries={"always-carets": f"'{L}' in result.todo"},
+    hints={_SC_IF: [f"iff('{L}' in TS, '{L}' in S0 and not any(B[a].kind in {_CARET_KINDS!r} for a in range(i)) and B[i].kind not in {_CARET_KINDS!r})"]},
+    loops={_SC_LOOP: Loop(index="i", seq="B", invariants={
+        **_SC_INV0, "carets": f"iff('{L}' in TS, '{L}' in S0 and not any(B[a].kind in {_CARET_KINDS!r} for a in range(i)))"})},
 )
 
 # =====================================================================================================================
@@ -561,9 +584,8 @@ def _gdef_build(d):
     return {"self": w, "font": _gdef_ufo(d), "feaFile": c17.parse_fea(d["fea"])}
 
 
-CONTRACTS["ufo2ft.featureWriters.gdefFeatureWriter:GdefFeatureWriter.setContext"].runtime = Runtime(
-    _gdef_cases, _gdef_build, call=lambda fn, a: fn(a["self"], a["font"], a["feaFile"])
-)
+for _k in (_SC, _SC + "#carets"):
+    CONTRACTS[_k].runtime = Runtime(_gdef_cases, _gdef_build, call=lambda fn, a: fn(a["self"], a["font"], a["feaFile"]))
 
 
 def _write_build(d):
